@@ -78,23 +78,43 @@ func vAssert(id string, c bool) {
 		vrt.violated = append(vrt.violated, id)
 	}
 }
-func vReach(id string)                      {}
-func vAnd(a, b bool) bool                   { return a && b }
-func vOr(a, b bool) bool                    { return a || b }
-func vNot(a bool) bool                      { return !a }
-func vImplies(a, b bool) bool               { return !a || b }
-func vIff(a, b bool) bool                   { return a == b }
-func vIteBool(c, a, b bool) bool            { if c { return a }; return b }
-func vIteInt(c bool, a, b int) int          { if c { return a }; return b }
-func vIteByte(c bool, a, b byte) byte       { if c { return a }; return b }
-func vIteStr(c bool, a, b string) string    { if c { return a }; return b }
-func vEqStr(a, b string) bool               { return a == b }
-func vEqInt(a, b int) bool                  { return a == b }
-func vEqByte(a, b byte) bool                { return a == b }
-func vLeByte(a, b byte) bool                { return a <= b }
-func vLtInt(a, b int) bool                  { return a < b }
-func vLeInt(a, b int) bool                  { return a <= b }
-func vHasPrefix(s, p string) bool           { return strings.HasPrefix(s, p) }
+func vReach(id string)        {}
+func vAnd(a, b bool) bool     { return a && b }
+func vOr(a, b bool) bool      { return a || b }
+func vNot(a bool) bool        { return !a }
+func vImplies(a, b bool) bool { return !a || b }
+func vIff(a, b bool) bool     { return a == b }
+func vIteBool(c, a, b bool) bool {
+	if c {
+		return a
+	}
+	return b
+}
+func vIteInt(c bool, a, b int) int {
+	if c {
+		return a
+	}
+	return b
+}
+func vIteByte(c bool, a, b byte) byte {
+	if c {
+		return a
+	}
+	return b
+}
+func vIteStr(c bool, a, b string) string {
+	if c {
+		return a
+	}
+	return b
+}
+func vEqStr(a, b string) bool     { return a == b }
+func vEqInt(a, b int) bool        { return a == b }
+func vEqByte(a, b byte) bool      { return a == b }
+func vLeByte(a, b byte) bool      { return a <= b }
+func vLtInt(a, b int) bool        { return a < b }
+func vLeInt(a, b int) bool        { return a <= b }
+func vHasPrefix(s, p string) bool { return strings.HasPrefix(s, p) }
 func vUFBool(name string, args ...string) bool {
 	return vrt.uf[name+"\x00"+strings.Join(args, "\x00")]
 }
